@@ -263,11 +263,19 @@ def make_schedule(rng, entries, pattern, allow_d18, d18_window):
                 delta = rng.choice([-1, 0, 1]) if pattern == "boundary" or rng.random() < 0.5 else rng.randint(-MIN, MIN)
                 t = e["ts"] + eff(cur_exp) + INTERVAL + delta    # horizon = e.ts + delta
             ok = rng.random() < 0.75
+            res = "ok" if ok else "fail%d" % (1 if rng.random() < 0.5 else rng.choice([1, 2, 3]))
             if ok:
                 persisted += 1
-                steps.append("S%d:ok" % t)
+            if rng.random() < 0.3 and applied < len(entries):
+                # Snapshot() now, Persist() after raft applied k more entries
+                kk = rng.randint(2, 4)
+                for e in entries[applied:applied + kk]:
+                    if e["kind"] == "c" and e["exp"] is not None:
+                        cur_exp = e["exp"]
+                applied = min(len(entries), applied + kk)
+                steps.append("SP%d:%d:%s" % (t, kk, res))
             else:
-                steps.append("S%d:fail%d" % (t, 1 if rng.random() < 0.5 else rng.choice([1, 2, 3])))
+                steps.append("S%d:%s" % (t, res))
         elif r < 0.93:
             steps.append("R")
             # raft's contract: the model/driver reset the applied pointer; mirror it here only roughly
@@ -321,7 +329,8 @@ def finalize(cases, model_ok):
         rest = max(0, meta["main"] - n)
         tail = len(c["entries"]) - meta["main"]
         tmax = max(e["ts"] for e in c["entries"] if e["kind"] != "i")
-        c["steps"] = c["steps"] + ["A"] * rest + ["S%d:ok" % meta["tail_t"], "X"] + ["A"] * tail + \
+        late = ((sum(map(ord, str(c["id"]))) + tail) % 2 == 0) and tail >= 2
+        c["steps"] = c["steps"] + ["A"] * rest + [("SP%d:2:ok" if late else "S%d:ok") % meta["tail_t"], "X"] + ["A"] * tail + \
             ["S%d:ok" % (tmax + 3 * 3600 * S), "X", "A", "A"]
         meta["finalized"] = True
 
@@ -646,16 +655,20 @@ def monitor(case, g):
                         "step %d (%s): snapshot state %s is not the plain replay of the %d entries no longer stored (%s)"
                         % (k, op, sd, len(gone), want_state), k)
             if sn["result"] == "ok":
-                if sn.get("pstate") != sn["state"] or sn.get("retained") != stored:
+                # the persisted snapshot holds the state message and the entries firstIndex..lastIndex as captured by
+                # Snapshot() - nothing that was applied between Snapshot() and Persist() (SP steps)
+                want_ret = [i for i in stored if int(i) <= int(sn["last"])]
+                if sn.get("pstate") != sn["state"] or sn.get("retained") != want_ret:
                     return ("persisted-content", "step %d (%s): persisted %s / %s, expected %s / %s"
-                            % (k, op, sn.get("pstate"), sn.get("retained"), sn["state"], stored), k)
+                            % (k, op, sn.get("pstate"), sn.get("retained"), sn["state"], want_ret), k)
             elif sn["result"] != "fail":
                 return ("persist-result", "step %d: %s" % (k, op), k)
             # horizon: t - (SessionExpiration of the last applied valid Config + 10 s)
-            t = int(case["steps"][k][1:].split(":")[0]) if case["steps"][k].startswith("S") else None
+            t = int(case["steps"][k].lstrip("SP").split(":")[0]) if case["steps"][k].startswith("S") else None
             if t is not None:
                 exp = 0
-                for e in cmds:
+                n_snap = int(g["recs"][k - 1]["n"]) if k > 0 and "n" in g["recs"][k - 1] else 0   # applied when Snapshot() ran
+                for e in [x for x in ents[:n_snap] if x["kind"] != "i"]:
                     if e["kind"] == "c" and e["exp"] is not None:
                         exp = e["exp"]
                 hz = t - ((exp or TEN_MIN) + INTERVAL)
